@@ -483,6 +483,8 @@ theorem removeNastyArc_ok {k : Nat} {a : Acc} {ins del : Bool} {r : RemoveResult
     · next ls hls =>
       split at hr
       · next hcont =>
+        split at hr
+        · cases hr
         cases hr
         dsimp only
         -- the chosen vertex
